@@ -126,6 +126,8 @@ class Backend:
         self.page_n = 0
         self.call_no = 0
         self.names = {}
+        self.world_versions = []
+        self.inv_start_version = 0
         self._put({"Id": "exec-op-0", "Type": "EXECUTION", "Status": "STARTED", "Name": "exec",
                    "StartTimestamp": ts(world.clock.now),
                    "ExecutionDetails": {"InputPayload": json.dumps(input_obj)}})
@@ -226,6 +228,7 @@ class Backend:
                     self._world_rec("timer", op, "cb-timeout")
 
     def _world_rec(self, kind, op, what):
+        self.world_versions.append(self.version)
         self.w.seq += 1
         self.w.trace.append({"s": self.w.seq, "i": self.w.inv, "t": -1, "k": "world", "what": what,
                              "id": op["Id"], "name": op.get("Name"), "status": op["Status"],
@@ -453,6 +456,7 @@ class Backend:
     def build_event(self, first_page):
         self.advance()
         tok = self.new_token()
+        self.inv_start_version = self.version
         ids = list(self.order)
         first = ids[: max(1, first_page)]
         rest = ids[len(first):]
